@@ -45,6 +45,8 @@ MC_API = mcc('MC_Api', 'MC_Api', invariants='Inv_P_C10 Inv_LiveTreesClean')
 MC_LOOPS = mcc('MC_Loops', 'MC_Loops', invariants='Inv_Bound Inv_Shrink Inv_Tab; PROPERTY Terminates (weak fairness)')
 
 MC_CSSTOK = mcc('MC_CssTok', 'MC_CssTok', invariants='(enumeration) every style sheet of at most MaxLen tokens over the alphabet is emitted and replayed: as user / agent sheet (Ok or CssParseError, no panic / hang) and inside <style> against the same document without it')
+MC_CSSSYN = mcc('MC_CssSyntax', 'MC_CssSyntax', invariants='Inv_Syntax (on every well-formed sheet the transcription of parse_stylesheet keeps exactly the rule sets the CSS Syntax reference keeps), Inv_Stop (and reads it to the end); every sheet emitted and replayed')
+MC_CSSSYN_DEEP = mcc('MC_CssSyntax', 'MC_CssSyntaxDeep', invariants='Inv_Syntax, Inv_Stop over a smaller alphabet and longer sheets (blocks nested in declaration values)')
 MC_SELECTOR = mcc('MC_Css', 'MC_Selector', invariants='Inv_Selector (RefMatch = DoMatches on every node)')
 MC_CASCADE = mcc('MC_Css', 'MC_Cascade', invariants='Inv_Cascade (MaybeUpdate fold = RefCascade)')
 MC_HIDE = mcc('MC_Css', 'MC_Hide', invariants='Inv_Hide (render of styled d = render of DeleteHidden(d))')
@@ -166,12 +168,13 @@ PLANS = {
     ),
     'C17': dict(
         fams=[('c17', dict(quick=4000, thorough=80000), {})],
-        mc=[MC_CSSTOK],
+        mc=[MC_CSSTOK, MC_CSSSYN, MC_CSSSYN_DEEP],
         model_ok=False,
+        drift_prop=dict(src='MC_CssSyntax', prop='C20'),
         timeout_ms=dict(quick=30000, thorough=120000),
         nontrivial=lambda rec: len(rec.get('runs', [])) >= 1 and rec['runs'][0]['res']['k'] in ('ok', 'csserr') and (len(rec['runs']) == 1 or any(len(x) > 2 and any(t[0] in ('Fg', 'Bg') for t in x[2]) for ln in rec['runs'][0]['res']['lines'] for x in ln) or rec['runs'][0]['route'] == 'string'),
-        rule='MC: every sequence of <= 3 (thorough 4) CSS tokens from an alphabet of 26 (30) token spellings, as user sheet, agent sheet and <style> content; random, three shapes: (total) add_css / add_agent_css with truncations of valid sheets, token soup over the CSS token alphabet, byte-mutated sheets: Ok or CssParseError under a watchdog; (inert) a document with <style>s</style> (s without display / content / white-space / height / overflow) against the same document without it: same result kind and letters; (variant) a valid sheet of 1-4 colour rules in canonical spelling against a variant (spacing, comments, upper-case properties and hex digits, rgb() spelling, final ; dropped or doubled, unknown properties, @import / @media / @font-face / unparsable rule sets in between), via <style> or add_css: equal rich renderings; distinct by sha256(runs)',
-        assumptions=['the character-level tokenizer is explored, not modelled (DESIGN.md section 10)'],
+        rule='MC (parser model, CssSyntax.tla): every sheet of <= 4 (thorough 5) atoms over 12 (17) atoms - tokens and whole good rule sets - and of <= 5 (7) atoms over 8: invariants on the model, then each sheet in <style> of a fixed document: well-formed sheets against the canonical text of their reference rules (variant), the others for totality, all against the colours the model predicts (drift); MC (enumeration): every sequence of <= 3 (thorough 4) CSS tokens from an alphabet of 26 (30) token spellings, as user sheet, agent sheet and <style> content; random, three shapes: (total) add_css / add_agent_css with truncations of valid sheets, token soup over the CSS token alphabet, byte-mutated sheets: Ok or CssParseError under a watchdog; (inert) a document with <style>s</style> (s without display / content / white-space / height / overflow) against the same document without it: same result kind and letters; (variant) a valid sheet of 1-4 colour rules in canonical spelling against a variant (spacing, comments, upper-case properties and hex digits, rgb() spelling, final ; dropped or doubled, unknown properties, @import / @media / @font-face / unparsable rule sets in between), via <style> or add_css: equal rich renderings; distinct by sha256(runs)',
+        assumptions=['the character-level tokenizer is explored, not modelled; the statement level of the parser (rule sets, declarations, values, recovery) is modelled at token level in CssSyntax.tla (DESIGN.md section 11)'],
     ),
     'C18': dict(
         fams=[('c18', dict(quick=2500, thorough=50000), {})],
@@ -315,6 +318,25 @@ def run_check(prop, tier, seed, t0, no_mc=False):
                 if pr['k'] != obs['k'] or (pr['k'] == 'ok' and pr['lines'] != obs_lines):
                     drift.append(c['id'])
                     break
+    # behaviours of a model whose prediction is an abstract sheet (meta.css): the observed colours against the
+    # prediction, through the predicate of another property - as drift of that model, never as a verdict
+    dp = plan.get('drift_prop')
+    if dp:
+        idx = [i for i, c in enumerate(cases) if (c.get('meta') or {}).get('src') == dp['src']]
+        if idx:
+            want = set(idx)
+            sp = os.path.join(wd, 'driftprop.trace')
+            with open(trace_path) as f, open(sp, 'w') as g:
+                for i, l in enumerate(f):
+                    if i in want:
+                        g.write(l)
+            dj, dbad, dstates, dwall = vlib.judge(sp, dp['prop'])
+            tstates += dstates
+            n_pred += len(idx)
+            for i, _ in dbad:
+                drift.append(cases[idx[i]].get('id'))
+            log('[model] %d behaviours of %s: observed colours against the predicted sheet (Props!P_%s), %d drift (%.1fs TLC)' % (len(idx), dp['src'], dp['prop'], len(dbad), dwall))
+            os.remove(sp)
     crashes = [(i, r) for i, r in enumerate(recs) if r.get('crash')]
     oversize = [r.get('id') for r in recs if r.get('oversize')]
     if oversize:
